@@ -283,3 +283,64 @@ invariant(FIN + ':_cleanup_network', 1, 'for endpoint in app.endpoints',
            ('C16', 'forall(lambda j: implies(0 <= j and j < _i, '
                    '  not owned(tm_env, dnat_key(app.endpoints[j], net_ext(unique_name), net_vip(unique_name)), unique_name) and '
                    '  not owned(tm_env, snat_key(app.endpoints[j], net_ext(unique_name), net_vip(unique_name)), unique_name)), "Int")')])
+
+
+# ------------------------------------------------------------------ _run._unshare_network (the registrations of a start)
+cls('FirewallPlugin', None, {})
+contract('treadmill.plugin_manager:load', types={'namespace': 'Str', 'name': 'Str', 'return': 'FirewallPlugin'},
+         ensures=['fs_same()'], modifies=['alloc'], assumed=True, note='loads the site firewall plugin')
+contract('lib:FirewallPlugin.apply_exception_rules', types={'$params': ['self', 'tm_env', 'container_dir', 'app']},
+         ensures=['fs_same()'], assumed=True,
+         note='site firewall plugin (none configured by default): assumed not to touch the registrations named here')
+contract('treadmill.newnet:create_newnet', types={'veth': 'Name', 'dev_ip': 'Name', 'gateway_ip': 'Name', 'service_ip': 'Opt[Name]'},
+         ensures=['fs_same()'], assumed=True, note='unshares the network namespace and configures the veth pair')
+contract('treadmill.endpoints:EndpointsMgr.create_spec',
+         types={'appname': 'Name', 'proto': 'Name', 'endpoint': 'Name', 'real_port': 'Int', 'pid': 'Str', 'port': 'Int',
+                'owner': 'Path'},
+         raises={'OSError': ['fs_same()']},
+         ensures=['forall(lambda d, n: implies(d != self._base_path, fs_kind(d, n) == old(fs_kind(d, n)) and '
+                  '       fs_target(d, n) == old(fs_target(d, n))), "Name", "Name")'],
+         modifies=['fs'], assumed=True,
+         note='creates one endpoint spec link in the endpoints directory (under contract in ./check C14); nothing outside '
+              'that directory changes')
+
+
+@spec
+def only_registrations_added(tm_env, app, u):
+    """Every rule file that changed was free, is bound to this container now, and is a registration of the manifest."""
+    return forall(lambda n: implies(not rule_same(tm_env, n),
+                                    old(fs_kind(rules_dir(tm_env), n)) == 0 and owned(tm_env, n, u) and
+                                    reg_rule(app, app.network.vip, app.network.external_ip, n)), 'Name')
+
+
+contract(RUN + ':_unshare_network',
+         types={'tm_env': 'AppEnvironment', 'container_dir': 'Name', 'app': 'App', 'unique_name': 'Name', 'owner': 'Path',
+                'new_ips': 'Set[Name]', 'service_ip': 'Opt[Name]'},
+         requires=['env_ok(tm_env)'],
+         # an entry owned by somebody else makes the start fail; what was registered so far is a registration of the manifest
+         raises={'OSError': [('C16', 'only_registrations_added(tm_env, app, uname_of(app))', 'failed_start_only_registrations')]},
+         ensures=[('C16', 'only_registrations_added(tm_env, app, uname_of(app))', 'only_registrations_added'),
+                  ('C16', 'forall(lambda n: implies(reg_rule(app, app.network.vip, app.network.external_ip, n), '
+                          '       owned(tm_env, n, uname_of(app))), "Name")', 'all_registrations_bound')],
+         modifies=['fs', 'alloc'], props=['C16'])
+INV_START = ['env_ok(tm_env)', 'unique_name == uname_of(app)',
+             ('C16', 'only_registrations_added(tm_env, app, unique_name)')]
+invariant(RUN + ':_unshare_network', 0, 'for endpoint in app.endpoints', INV_START + [
+    ('C16', 'forall(lambda j: implies(0 <= j and j < _i, '
+            '  owned(tm_env, dnat_key(app.endpoints[j], app.network.external_ip, app.network.vip), unique_name) and '
+            '  owned(tm_env, snat_key(app.endpoints[j], app.network.external_ip, app.network.vip), unique_name)), "Int")')])
+EP_DONE = ('C16', 'forall(lambda j: implies(0 <= j and j < len(app.endpoints), '
+                  '  owned(tm_env, dnat_key(app.endpoints[j], app.network.external_ip, app.network.vip), unique_name) and '
+                  '  owned(tm_env, snat_key(app.endpoints[j], app.network.external_ip, app.network.vip), unique_name)), "Int")')
+invariant(RUN + ':_unshare_network', 1, 'for port in app.ephemeral_ports.tcp', INV_START + [EP_DONE,
+    ('C16', 'forall(lambda j: implies(0 <= j and j < _i, owned(tm_env, eph_key("tcp", app.network.external_ip, '
+            '  app.network.vip, app.ephemeral_ports.tcp[j]), unique_name)), "Int")')])
+TCP_DONE = ('C16', 'forall(lambda j: implies(0 <= j and j < len(app.ephemeral_ports.tcp), owned(tm_env, eph_key("tcp", '
+                   '  app.network.external_ip, app.network.vip, app.ephemeral_ports.tcp[j]), unique_name)), "Int")')
+invariant(RUN + ':_unshare_network', 2, 'for port in app.ephemeral_ports.udp', INV_START + [EP_DONE, TCP_DONE,
+    ('C16', 'forall(lambda j: implies(0 <= j and j < _i, owned(tm_env, eph_key("udp", app.network.external_ip, '
+            '  app.network.vip, app.ephemeral_ports.udp[j]), unique_name)), "Int")')])
+UDP_DONE = ('C16', 'forall(lambda j: implies(0 <= j and j < len(app.ephemeral_ports.udp), owned(tm_env, eph_key("udp", '
+                   '  app.network.external_ip, app.network.vip, app.ephemeral_ports.udp[j]), unique_name)), "Int")')
+invariant(RUN + ':_unshare_network', 3, 'for ipaddr in new_ips', INV_START + [EP_DONE, TCP_DONE, UDP_DONE,
+    ('C16', 'forall(lambda j: implies(0 <= j and j < _i, owned(tm_env, pt_key(_seq[j], app.network.vip), unique_name)), "Int")')])
